@@ -118,6 +118,82 @@ func propC07(c *Ctx) {
 			}
 		}
 		c.Check("R7.2", "Error.Exists/true-for-every-nonzero-code", existsFn.Pos(), good && n > 0, "Exists() may answer false only when Code == 0 (an error member with a positive code is an error too)")
+		// F-27: … and only when there is no message either (an error object without a code)
+		{
+			fMsg := w.FieldMaybe("jrpc2", "Error", "Message")
+			isMsg := func(v ssa.Value) bool {
+				if fMsg == nil {
+					return false
+				}
+				if lf, _ := loadedField(stripConv(v)); lf == fMsg {
+					return true
+				}
+				if fv, ok := stripConv(v).(*ssa.Field); ok {
+					lf, _ := fieldOf(fv)
+					return lf == fMsg
+				}
+				if arg, isLen := lenArg(v); isLen {
+					lf, _ := loadedField(stripConv(arg))
+					if lf == fMsg {
+						return true
+					}
+					if fv, ok := stripConv(arg).(*ssa.Field); ok {
+						lf2, _ := fieldOf(fv)
+						return lf2 == fMsg
+					}
+				}
+				return false
+			}
+			isEmptyConst := func(v ssa.Value) bool {
+				if s, ok := constString(v); ok {
+					return s == ""
+				}
+				k, ok := constInt(v)
+				return ok && k == 0
+			}
+			var noMsg []Edge // edges on which the message is known to be empty
+			var msgCmps []*ssa.BinOp
+			allInstrs(existsFn, func(in ssa.Instruction) {
+				b, ok := in.(*ssa.BinOp)
+				if !ok || !isMsg(b.X) || !isEmptyConst(b.Y) {
+					return
+				}
+				t, f := boolEdges(b)
+				switch b.Op {
+				case token.NEQ, token.GTR:
+					noMsg = append(noMsg, f...)
+					msgCmps = append(msgCmps, b)
+				case token.EQL:
+					noMsg = append(noMsg, t...)
+				}
+			})
+			goodM, nM := true, 0
+			for _, r := range returnsOf(existsFn) {
+				for _, lf := range phiLeaves(returnValues(r)[0]) {
+					nM++
+					if k, ok := lf.Val.(*ssa.Const); ok && k.Value != nil && k.Value.String() == "true" {
+						continue
+					}
+					isCmp := false
+					for _, mc := range msgCmps {
+						if lf.Val == ssa.Value(mc) {
+							isCmp = true // the answer is `Message != ""` itself
+						}
+					}
+					if isCmp {
+						continue
+					}
+					if lf.Phi != nil && lf.Pred != nil && len(noMsg) > 0 && (edgeGuarded(existsFn, lf.Pred, lf.Phi.Block(), noMsg) || guardedByEdges(existsFn, terminator(lf.Pred), noMsg)) {
+						continue
+					}
+					if len(noMsg) > 0 && guardedByEdges(existsFn, r, noMsg) {
+						continue
+					}
+					goodM = false
+				}
+			}
+			c.Check("R7.2", "Error.Exists/true-for-every-message", existsFn.Pos(), goodM && nM > 0, "Exists() may answer false only when the message is empty too (an error object without a code is still an error)")
+		}
 	}
 	for _, fn := range fns {
 		for ord, call := range callsToFn(fn, do) {
@@ -317,6 +393,7 @@ func propC07(c *Ctx) {
 	// ---- R7.5 ----------------------------------------------------------
 	c.Rule("R7.5", "block-map look-ups test ok; out-of-range block numbers are rejected before data is attached", 5)
 	propC07TraceReplyBlock(c)
+	propC07BatchReplies(c)
 	for _, name := range []string{"(*Client).receipts", "(*Client).logs", "(*Client).traces"} {
 		fn := w.Fn("jrpc2", name)
 		n := 0
@@ -1124,6 +1201,35 @@ func propC07Nullable(c *Ctx, fn *ssa.Function, r respRoot, call *ssa.Call, key s
 				}
 			}
 			c.Check("R7.3", key+"/"+r.desc+"."+pf.Name()+"/null-is-error", call.Pos(), armOK, "a `\"result\": null` reply for this request is turned into an error")
+		}
+		if r.batch {
+			// F-26: a pre-bound result pointer that a `"result": null` sets to nil: every element is tested and a
+			// nil one is an error (block 0 used to pass as an empty block)
+			var isNilE []Edge
+			every := true
+			nTests := 0
+			for _, ld := range loads {
+				n, _ := nilTestEdges(ld)
+				if len(n) == 0 {
+					continue
+				}
+				nTests++
+				isNilE = append(isNilE, n...)
+				for _, ref := range *ld.Referrers() {
+					if b, isB := ref.(*ssa.BinOp); isB && isNilConst(b.Y) {
+						if ev, found := passesEveryCompletedIteration(b); !found || !ev {
+							every = false
+						}
+					}
+				}
+			}
+			armOK := len(isNilE) > 0 && every
+			for _, e := range isNilE {
+				if g, _ := errorArmLeaves(fn, e, nonNil, nil); !g {
+					armOK = false
+				}
+			}
+			c.Check("R7.3", key+"/"+r.desc+"."+pf.Name()+"/null-is-error", call.Pos(), armOK, "a `\"result\": null` element of the batch reply (it sets the pre-bound pointer to nil) is turned into an error, for every element")
 		}
 		if len(derefs) == 0 {
 			continue // pointer never dereferenced here (pre-bound batch elements)
